@@ -1571,7 +1571,116 @@ def _sse(run):
                  witness=flow.describe_path(cfg, path), runtime_witness='two consecutive events are merged by the client-side parser')
 
 
-_FMT_OK = re.compile(r'^\{[^{}]*\} \{[^{}]*\}$')
+_PCT = re.compile(r'%(?:\((\w+)\))?([#0\- +]*)(\*|\d+)?(?:\.(\d+))?([a-zA-Z%])')
+
+
+def _render_parts(e):
+    """A string-building expression as a list of ('lit', text) / ('expr', node, conversion, format spec), adjacent
+    literals merged: constants, f-strings, `'..'.format(..)`, `'..' % ..`, `+` concatenation and `sep.join([..])` read
+    alike.  None when the expression is none of these (or uses a feature that is not modelled)."""
+    def merge(parts):
+        out = []
+        for q in parts:
+            if q[0] == 'lit' and q[1] == '':
+                continue
+            if q[0] == 'lit' and out and out[-1][0] == 'lit':
+                out[-1] = ('lit', out[-1][1] + q[1])
+            else:
+                out.append(q)
+        return out
+
+    def go(e):
+        if isinstance(e, ast.Constant) and isinstance(e.value, str):
+            return [('lit', e.value)]
+        if isinstance(e, ast.JoinedStr):
+            out = []
+            for x in e.values:
+                if isinstance(x, ast.Constant) and isinstance(x.value, str):
+                    out.append(('lit', x.value))
+                elif isinstance(x, ast.FormattedValue):
+                    spec = ''
+                    if x.format_spec is not None:
+                        sp = go(x.format_spec)
+                        if sp is None or any(q[0] != 'lit' for q in sp):
+                            return None
+                        spec = ''.join(q[1] for q in sp)
+                    out.append(('expr', x.value, {-1: '', 115: 's', 114: 'r', 97: 'a'}.get(x.conversion, '?'), spec))
+                else:
+                    return None
+            return out
+        if isinstance(e, ast.Call) and isinstance(e.func, ast.Attribute) and e.func.attr == 'format' and isinstance(e.func.value, ast.Constant) \
+                and isinstance(e.func.value.value, str):
+            if any(isinstance(a, ast.Starred) for a in e.args) or any(k.arg is None for k in e.keywords):
+                return None
+            import string
+            out, auto = [], 0
+            try:
+                fields = list(string.Formatter().parse(e.func.value.value))
+            except ValueError:
+                return None
+            for lit, name, spec, conv in fields:
+                if lit:
+                    out.append(('lit', lit))
+                if name is None:
+                    continue
+                if '{' in (spec or ''):
+                    return None
+                if name == '':
+                    idx, auto = auto, auto + 1
+                    arg = e.args[idx] if idx < len(e.args) else None
+                elif name.isdigit():
+                    arg = e.args[int(name)] if int(name) < len(e.args) else None
+                elif name.isidentifier():
+                    arg = next((k.value for k in e.keywords if k.arg == name), None)
+                else:
+                    return None
+                if arg is None:
+                    return None
+                out.append(('expr', arg, conv or '', spec or ''))
+            return out
+        if isinstance(e, ast.BinOp) and isinstance(e.op, ast.Mod) and isinstance(e.left, ast.Constant) and isinstance(e.left.value, str):
+            args = list(e.right.elts) if isinstance(e.right, ast.Tuple) else [e.right]
+            if any(isinstance(a, ast.Starred) for a in args) or isinstance(e.right, ast.Dict):
+                return None
+            if not isinstance(e.right, ast.Tuple) and not isinstance(e.right, (ast.Name, ast.Attribute, ast.Call, ast.Constant)):
+                return None
+            out, pos, i = [], 0, 0
+            fmt = e.left.value
+            for m in _PCT.finditer(fmt):
+                out.append(('lit', fmt[pos:m.start()]))
+                pos = m.end()
+                if m.group(5) == '%':
+                    out.append(('lit', '%'))
+                    continue
+                if m.group(1) or m.group(2) or m.group(3) or m.group(4) or m.group(5) not in 'sdri' or i >= len(args):
+                    return None
+                out.append(('expr', args[i], {'s': 's', 'r': 'r', 'd': 'd', 'i': 'd'}[m.group(5)], ''))
+                i += 1
+            out.append(('lit', fmt[pos:]))
+            if i != len(args) or '%' in ''.join(q[1] for q in out if q[0] == 'lit' and q[1] != '%'):
+                return None
+            return out
+        if isinstance(e, ast.BinOp) and isinstance(e.op, ast.Add):
+            a, b = go(e.left), go(e.right)
+            return None if a is None or b is None else a + b
+        if isinstance(e, ast.Call) and isinstance(e.func, ast.Attribute) and e.func.attr == 'join' and isinstance(e.func.value, ast.Constant) \
+                and isinstance(e.func.value.value, str) and len(e.args) == 1 and not e.keywords and isinstance(e.args[0], (ast.List, ast.Tuple)):
+            out = []
+            for k, x in enumerate(e.args[0].elts):
+                if isinstance(x, ast.Starred):
+                    return None
+                sub = go(x)
+                if sub is None:
+                    return None
+                out += ([('lit', e.func.value.value)] if k else []) + sub
+            return out
+        if isinstance(e, (ast.Name, ast.Attribute)) or (isinstance(e, ast.Call) and isinstance(e.func, ast.Name) and e.func.id in ('str', 'repr')
+                                                         and len(e.args) == 1 and not e.keywords):
+            return [('expr', e, '', '')]
+        return None
+
+    parts = go(e)
+    return None if parts is None else merge(parts)
 
 
 def _status_line(run):
@@ -1627,37 +1736,84 @@ def _status_line(run):
                         return True
         return False
 
+    raw_al = aliases(f, lambda e: is_name(e, st)) | {st}
+
+    def narrowed(facts) -> bool:
+        """some fact that holds at the return is an isinstance() test of the parameter that came out true"""
+        for (t, tr) in facts:
+            for x in ast.walk(t):
+                if isinstance(x, ast.Call) and is_name(x.func, 'isinstance') and x.args and isinstance(x.args[0], ast.Name) and x.args[0].id in raw_al:
+                    u = eval3(t, lambda e, x=x: False if e is x else None)
+                    if u is not None and u != tr:
+                        return True
+        return False
+
+    def number(part) -> str:
+        """What a rendered field is: 'int' (the int()-normalised code), 'enum' (<status>.value), 'raw' (the parameter itself,
+        as handed in) or '?' (not understood)."""
+        _k, e, conv, spec = part
+        while isinstance(e, ast.Call) and isinstance(e.func, ast.Name) and e.func.id in ('str', 'repr', 'format') and len(e.args) == 1 and not e.keywords:
+            e = e.args[0]
+        if isinstance(e, ast.Name) and e.id in raw_al:
+            return 'raw'
+        if spec not in ('', 'd') or conv not in ('', 's', 'r', 'd'):
+            return '?'
+        if isinstance(e, ast.Name) and e.id in int_al:
+            return 'int'
+        if isinstance(e, ast.Call) and is_name(e.func, 'int') and len(e.args) == 1 and not e.keywords and is_name(e.args[0], st):
+            return 'int'
+        if isinstance(e, ast.Attribute) and e.attr == 'value' and is_name(e.value, st):
+            return 'enum'
+        return '?'
+
     for r in rets:
         v = r.ast.value
         facts = ix.facts(r.id)
         where = '%s:%s' % (f.file, r.lineno)
         what = 'code_to_http_status returns a "<3 digits> <reason>" shaped line'
-        if isinstance(v, ast.Call) and isinstance(v.func, ast.Attribute) and v.func.attr == 'format' and isinstance(v.func.value, ast.Constant) \
-                and isinstance(v.func.value.value, str):
-            fmt = v.func.value.value
-            ok = bool(_FMT_OK.match(fmt)) and len(v.args) == 2
-            first = v.args[0] if v.args else None
-            if ok and isinstance(first, ast.Name) and first.id in int_al:
-                ok = in_range(facts)
-            elif ok and not (isinstance(first, ast.Attribute) and first.attr == 'value' and is_name(first.value, st)):
-                raise UnknownIdiom('%s: first format argument %s' % (f.qual, short(first)))
-            run.check(ok, what + ' (format literal "{} {}", code confined to 100-999)', f, r.ast, where=where,
-                      runtime_witness='resp.status = 7 yields the status line "7 Unknown"')
-        elif is_name(v, st) or (isinstance(v, ast.Call) and isinstance(v.func, ast.Attribute) and v.func.attr == 'decode' and is_name(v.func.value, st)):
+        if is_name(v, st) or (isinstance(v, ast.Call) and isinstance(v.func, ast.Attribute) and v.func.attr == 'decode' and is_name(v.func.value, st)):
             run.check(has_space(facts, v), what + ' (a str/bytes status is passed through only when it contains a space)', f, r.ast, where=where,
                       runtime_witness='resp.status = "404" is sent as the status line "404"')
         elif isinstance(v, ast.Call) and is_name(v.func, 'getattr') and len(v.args) == 2:
             tgt = p.resolve_expr(f.module, v.args[0], f)
-            key = v.args[1]
-            ok = (tgt == 'falcon.status_codes' and isinstance(key, ast.BinOp) and isinstance(key.op, ast.Add)
-                  and isinstance(key.left, ast.Constant) and key.left.value == 'HTTP_'
-                  and isinstance(key.right, ast.Call) and is_name(key.right.func, 'str') and len(key.right.args) == 1
-                  and isinstance(key.right.args[0], ast.Name) and key.right.args[0].id in int_al)
+            key = _render_parts(v.args[1])
+            # the key is 'HTTP_' followed by the int-normalised code, however it is put together
+            ok = (tgt == 'falcon.status_codes' and key is not None and len(key) == 2 and key[0] == ('lit', 'HTTP_')
+                  and key[1][0] == 'expr' and number(key[1]) == 'int')
             if not ok:
                 raise UnknownIdiom('%s: %s' % (f.qual, short(r.ast)))
             run.check(in_range(facts), what + ' (table lookup HTTP_<code> with the code confined to 100-999)', f, r.ast, where=where)
         else:
-            raise UnknownIdiom('%s: %s' % (f.qual, short(r.ast)))
+            parts = _render_parts(v)
+            if parts is None or not parts:
+                raise UnknownIdiom('%s: %s' % (f.qual, short(r.ast)))
+            if parts[0][0] == 'lit':
+                if len(parts) == 1:
+                    run.check(bool(re.match(r'^[1-9]\d\d \S', parts[0][1])), what + ' (constant line)', f, r.ast, where=where,
+                              runtime_witness='the status line %r is sent' % parts[0][1])
+                    continue
+                raise UnknownIdiom('%s: %s' % (f.qual, short(r.ast)))
+            kind = number(parts[0])
+            if kind == 'raw':
+                # the number rendered into the line is the parameter as it was handed in, not the local that int() produced
+                if narrowed(facts):
+                    raise UnknownIdiom('%s: the raw status is rendered under an isinstance() fact: %s' % (f.qual, short(r.ast)))
+                if any(isinstance(x, ast.Name) and x.id == st and isinstance(x.ctx, (ast.Store, ast.Del)) for x in walk_self(f.node)):
+                    raise UnknownIdiom('%s: the parameter `%s` is rebound; cannot tell what %s renders' % (f.qual, st, short(r.ast)))
+                run.fail(what + ': the number rendered into the line is the raw `%s` argument, not the int()-normalised code that was range-checked'
+                         % st, f, r.ast, where=where,
+                         runtime_witness="resp.status = b'460' yields the status line \"b'460' Unknown\", 460.0 yields '460.0 Unknown' "
+                                         '(any code without a falcon constant, given as bytes / float / padded str)')
+                continue
+            if kind == '?':
+                raise UnknownIdiom('%s: first rendered field %s' % (f.qual, short(parts[0][1])))
+            spaced = len(parts) > 1 and parts[1][0] == 'lit' and parts[1][1].startswith(' ')
+            has_reason = spaced and (len(parts) > 2 or parts[1][1].strip() != '')
+            if spaced and not has_reason:
+                raise UnknownIdiom('%s: status line without a reason: %s' % (f.qual, short(r.ast)))
+            ok = spaced and (in_range(facts) if kind == 'int' else True)
+            run.check(ok, what + ' (the code, one space, the reason; code confined to 100-999)', f, r.ast, where=where,
+                      runtime_witness='resp.status = 7 yields the status line "7 Unknown"')
     # only ValueError leaves it
     E = Escape(p)
     summ = E.summary(f)
